@@ -28,7 +28,7 @@ static size_t ref_der(const struct tval *v, uint8_t *out, size_t cap) {
     if(v->has_b) der_bool_tagged(&b, CL_CTX, 1, v->b);
     if(tv_c(v) != 7) der_int_tagged(&b, CL_CTX, 2, tv_c(v));   /* X.690 11.5: default value not encoded */
     struct rbuf o = { out, 0, cap };
-    der_tag(&o, CL_UNIV | CONSTRUCTED, 16); der_len(&o, b.n); rb_puts(&o, body, b.n);
+    x_constructed(&o, CL_UNIV, 16, body, b.n);
     return o.n;
 }
 static size_t ref_uper(const struct tval *v, uint8_t *out, size_t cap) {
@@ -52,3 +52,53 @@ static size_t ref_oer(const struct tval *v, uint8_t *out, size_t cap) {
 }
 static int tv_wf(const struct tval *v) { return v->has_b <= 1 && v->b <= 1 && v->has_c <= 1; }
 #define tv_wellformed tv_wf
+
+/* ---- C03: alternative valid encodings of the same value ---- */
+#define TV_HAS_VARIANT 1
+struct tvariant { uint8_t dflt_present; uint8_t unk; uint8_t unkval; };
+static int tvar_valid(const struct tvariant *x) { return x->dflt_present <= 1 && x->unk <= 1; }
+/* BER: DEFAULT component may be present with the default value; an unknown extension addition [3] may follow */
+static size_t ref_ber_variant(const struct tval *v, const struct tvariant *x, uint8_t *out, size_t cap) {
+    uint8_t body[24]; struct rbuf b = { body, 0, sizeof(body) };
+    der_int_tagged(&b, CL_CTX, 0, v->a);
+    if(v->has_b) der_bool_tagged(&b, CL_CTX, 1, v->b);
+    if(tv_c(v) != 7 || x->dflt_present) der_int_tagged(&b, CL_CTX, 2, tv_c(v));
+    if(x->unk) der_octets_tagged(&b, CL_CTX, 3, &x->unkval, 1);
+    struct rbuf o = { out, 0, cap };
+    x_constructed(&o, CL_UNIV, 16, body, b.n);
+    return o.n;
+}
+/* UPER with one unknown extension addition (X.691 19.7-19.9) */
+static size_t ref_uper_unk(const struct tval *v, const struct tvariant *x, uint8_t *out, size_t cap) {
+    struct bitw w = { out, 0, cap };
+    bw_bit(&w, 1);
+    bw_bit(&w, v->has_b); bw_bit(&w, tv_c(v) != 7 || x->dflt_present);
+    uper_constrained(&w, v->a, 0, 255);
+    if(v->has_b) bw_bit(&w, v->b);
+    if(tv_c(v) != 7 || x->dflt_present) uper_constrained(&w, tv_c(v), -5, 1000);
+    uper_nsnnwn(&w, 1 - 1); bw_bit(&w, 1);
+    uper_length(&w, 1); bw_bits(&w, x->unkval, 8);
+    return bw_finish(&w);
+}
+/* OER with one unknown extension addition (X.696 16.4) */
+static size_t ref_oer_unk(const struct tval *v, const struct tvariant *x, uint8_t *out, size_t cap) {
+    struct rbuf o = { out, 0, cap };
+    int cp = tv_c(v) != 7 || x->dflt_present;
+    rb_put(&o, (uint8_t)(0x80 | (v->has_b ? 0x40 : 0) | (cp ? 0x20 : 0)));
+    oer_int(&o, v->a, 1, 0, 1, 255, 255);
+    if(v->has_b) rb_put(&o, v->b ? 0xff : 0);
+    if(cp) oer_int(&o, tv_c(v), 1, -5, 1, 1000, 1000);
+    oer_len(&o, 2); rb_put(&o, 7); rb_put(&o, 0x80);
+    oer_len(&o, 1); rb_put(&o, x->unkval);
+    return o.n;
+}
+
+/* ---- C06: same abstract value, different representation: DEFAULT stored explicitly vs left absent ---- */
+#define TV_HAS_ALT 1
+struct talt { uint8_t materialise; };
+static int talt_valid(const struct talt *a) { return a->materialise <= 1; }
+static void tv_build_alt(const struct tval *v, const struct talt *a, TYPE_T *o, struct tv_store *s) {
+    tv_build(v, o, s);
+    if(a->materialise && !o->c) { s->c = 7; o->c = &s->c; }          /* c present and equal to the default */
+    else if(!a->materialise && o->c && *o->c == 7) o->c = 0;         /* c absent */
+}
